@@ -10,7 +10,7 @@ PLANS = {
         ("alias", "alias", BASE + ["Retarget"], ["copy", "const"], ["all"], ["ALL", "c"], 4, 5, ["TypeOK", "CleanEq"])],
     rp=[("chain edits", "chain", BASE + ["Taint", "Perturb", "EditFingerprint"], ["copy", "const", "copy2", "fail"], ["all"], ["ALL", "c"], 9, 12, 150, True),
         ("alias hop + glob", "alias", BASE + ["Retarget", "Taint"], ["copy", "const", "copy2"], ["all"], ["ALL", "c"], 9, 12, 150, True),
-        ("diamond shift/rename/platform", "diamond", BASE + ["EditShift", "EditOutputs", "ChangePlatform", "EditFingerprint", "Perturb"], ["copy", "copy2", "const"], ["all"], ["ALL", "d"], 9, 12, 150, True)]),
+        ("diamond shift/rename/platform", "diamond", BASE + ["EditShift", "EditSwap", "EditOutputs", "ChangePlatform", "EditFingerprint", "Perturb"], ["copy", "copy2", "const"], ["all"], ["ALL", "d"], 9, 12, 150, True)]),
  "C02": dict(
     ex=[("chain", "chain", BASE + ["Taint", "Perturb", "ToggleNoCache", "DropBlob"], ["copy", "const", "fail"], ["all"], ["ALL"], 4, 5, ["TypeOK", "NoOpRebuild", "EditLocality", "AtMostOncePerBuild"])],
     rp=[("diamond perturbations", "diamond", BASE + ["Perturb", "DropBlob"], ["copy", "const"], ["all"], ["ALL", "d"], 9, 14, 200, False),
@@ -22,8 +22,8 @@ PLANS = {
     rp=[("chain taint/no-cache/cache-off", "chain", ["EditInput", "EditCmd", "Build", "Taint", "ToggleNoCache", "BuildCacheOff"], ["copy", "const", "fail"], ["all"], ["ALL", "c", "b"], 9, 16, 250, False),
         ("diamond taint/no-cache/cache-off", "diamond", ["EditInput", "Build", "Taint", "ToggleNoCache", "BuildCacheOff"], ["copy", "const"], ["all"], ["ALL", "d"], 9, 12, 150, False)]),
  "C14": dict(
-    ex=[("check", "check", BASE + ["BreakExt", "Taint"], ["copy", "fail", "noest", "omit"], ["all"], ["ALL"], 4, 5, ["TypeOK", "SuccessImpliesPost", "FailingCheckForcesExec", "CleanEq"])],
-    rp=[("check targets", "check", BASE + ["BreakExt", "Taint"], ["copy", "fail", "noest", "omit", "slow"], ["all"], ["ALL", "n"], 9, 20, 300, False),
+    ex=[("check", "check", BASE + ["BreakExt", "Taint"], ["copy", "fail", "noest", "unest", "omit"], ["all"], ["ALL"], 4, 5, ["TypeOK", "SuccessImpliesPost", "FailingCheckForcesExec", "CleanEq"])],
+    rp=[("check targets", "check", BASE + ["BreakExt", "Taint"], ["copy", "fail", "noest", "unest", "omit", "slow"], ["all"], ["ALL", "n"], 9, 20, 300, False),
         ("chain missing outputs/timeouts", "chain", BASE, ["copy", "omit", "slow", "fail"], ["all"], ["ALL"], 6, 8, 100, False)]),
  "C15": dict(
     ex=[("chain", "chain", BASE + ["Taint", "ToggleNoCache", "Perturb"], ["copy", "const", "fail"], ["minimal"], ["ALL", "c"], 4, 5, ["TypeOK", "AtMostOncePerBuild", "TaintConsumed", "NoCacheAlwaysRuns"])],
@@ -37,7 +37,7 @@ PLANS = {
 }
 
 
-ALLEDITS = ["EditInput", "EditCmd", "Build", "Perturb", "DropBlob", "Taint", "ToggleNoCache", "EditFingerprint", "EditShift", "EditOutputs", "ChangePlatform"]
+ALLEDITS = ["EditInput", "EditCmd", "Build", "Perturb", "DropBlob", "Taint", "ToggleNoCache", "EditFingerprint", "EditShift", "EditSwap", "EditOutputs", "ChangePlatform"]
 # systematic batches: every history  full build ; k non-build actions ; build  (k = depth - 2), enumerated by TLC in model-checking mode
 SYS = {
  "C01": [("diamond every edit", "diamond", ALLEDITS, ["copy", "const", "copy2"], ["all"], ["ALL", "d"], 3, 4, True),
@@ -45,7 +45,7 @@ SYS = {
  "C02": [("diamond every edit/perturbation", "diamond", ALLEDITS, ["copy", "const"], ["all"], ["ALL", "d"], 3, 4, False),
          ("chain minimal-mode locality", "chain", BASE + ["Perturb", "DropBlob"], ["copy", "const"], ["minimal"], ["ALL", "c"], 3, 4, False)],
  "C13": [("diamond taint/no-cache/cache-off", "diamond", ["EditInput", "Build", "Taint", "ToggleNoCache", "BuildCacheOff"], ["copy", "const"], ["all"], ["ALL", "d"], 3, 4, False)],
- "C14": [("check targets", "check", BASE + ["BreakExt", "Taint"], ["copy", "fail", "noest", "omit"], ["all"], ["ALL", "n"], 3, 4, False)],
+ "C14": [("check targets", "check", BASE + ["BreakExt", "Taint"], ["copy", "fail", "noest", "unest", "omit"], ["all"], ["ALL", "n"], 3, 4, False)],
  "C15": [("diamond minimal", "diamond", BASE + ["Taint", "ToggleNoCache", "Perturb", "EditFingerprint"], ["copy", "const", "fail"], ["minimal"], ["ALL", "d"], 3, 4, False),
          ("alias minimal", "alias", BASE + ["Retarget", "Taint", "ToggleNoCache"], ["copy", "const"], ["minimal"], ["ALL", "c"], 3, 4, False)],
  "C05": [("diamond failures", "diamond", BASE, ["copy", "fail", "omit", "slow"], ["all"], ["ALL", "d"], 3, 4, False)],
